@@ -19,7 +19,7 @@ import html
 import re
 
 LEVEL = "exploration"
-RULE = ("a case = one analyzer configuration (55 shipped analyzers / tokenizer|filter compositions, incl. per-language "
+RULE = ("a case = one analyzer configuration (65 shipped analyzers / tokenizer|filter compositions, incl. per-language "
         "analyzers) x one field type that analyses text (TEXT with/without positions and chars, KEYWORD, ID, IDLIST, "
         "NGRAM, NGRAMWORDS) x 4..6 generated texts (multi-script unicode, punctuation, numbers, URLs, e-mail, very "
         "long/short tokens, stop words of several languages, CamelCase and intra-word punctuation, sentences) indexed "
@@ -59,7 +59,7 @@ SHARDS = {"quick": 4, "thorough": 16}
 BUDGET_S = {"quick": 70, "thorough": 600}
 FLOORS = {"cases": 400, "docs": 1500, "a.term_checks": 8000, "b.and_checks": 1200, "b.parser_checks": 800,
           "c.phrase_checks": 1500, "d.position_streams": 1500, "e.offset_checks": 8000, "f.highlights": 1500,
-          "f.marked_spans": 1500, "f.pinpoint": 60}
+          "f.marked_spans": 1500, "f.pinpoint": 60, "f.strict_phrase": 150, "f.lowlevel": 300}
 
 # ----------------------------------------------------------------------
 # texts
@@ -401,6 +401,7 @@ def one_case(ctx, rng, CAT, names):
                                           piece_index_tokens=[short(x, 40) for x in ptoks[:8]]))
                             break
                 # (c) phrases at consecutive positions
+                phrase_words = None
                 if has_positions:
                     bypos = {}
                     for t in itoks:
@@ -415,6 +416,8 @@ def one_case(ctx, rng, CAT, names):
                     rng.shuffle(runs)
                     for run in runs[:4]:
                         words = [rng.choice(bypos[p]) for p in run]
+                        if phrase_words is None:
+                            phrase_words = words
                         ctx.count("c.phrase_checks")
                         if did not in ids(query.Phrase("f", words)):
                             ctx.fail("c.phrase", "phrase-at-consecutive-positions-not-found:%s" % aname,
@@ -423,6 +426,8 @@ def one_case(ctx, rng, CAT, names):
                 # (f) highlights
                 if has_offsets or True:
                     check_highlights(ctx, rng, s, wit, field, ana, text, itoks, distinct, did, kind, has_offsets)
+                    if phrase_words and has_offsets and rng.random() < 0.5:
+                        check_strict_phrase(ctx, rng, s, wit, text, itoks, phrase_words, did)
             except Exception as e:  # noqa
                 mech, in_harness = exc_mech("search", e)
                 if in_harness:
@@ -568,6 +573,8 @@ def check_highlights(ctx, rng, s, wit, field, ana, text, itoks, distinct, did, k
                   ("html", lambda: highlight.HtmlFormatter(between=SENT)),
                   ("null", lambda: highlight.NullFormatter())]
     qset = set(qtoks)
+    if has_offsets and rng.random() < 0.3:
+        check_lowlevel_highlight(ctx, rng, wit, ana, text, qtoks)
     # source ranges of the matched terms, from the index-mode analysis of the whole text
     ranges = sorted(set((t.sc, t.ec) for t in itoks if t.text in qset and t.sc is not None))
     for _ in range(2):
@@ -675,6 +682,130 @@ def check_highlights(ctx, rng, s, wit, field, ana, text, itoks, distinct, did, k
             if marked != expect:
                 ctx.fail("f.highlight", "html-markup-differs-from-fragments:%s" % frname,
                          dict(hw, marked=[short(x, 40) for x in marked[:8]], expected=[short(x, 40) for x in expect[:8]]))
+
+
+def check_lowlevel_highlight(ctx, rng, wit, ana, text, qtoks):
+    """whoosh.highlight.highlight(text, terms, analyzer, fragmenter, formatter) - the documented low-level API, which
+    analyses in query mode."""
+    from whoosh import highlight
+    try:
+        qmode = analyse(ana, text, "query")
+    except Exception:  # noqa  (the analyze monitor reports exceptions of index mode; query mode is (b)'s subject)
+        return
+    qset = set(qtoks)
+    ranges = sorted(set((t.sc, t.ec) for t in qmode if t.text in qset and t.sc is not None))
+    frname, fr = rng.choice([("context", highlight.ContextFragmenter(surround=rng.choice([20, 3]))),
+                             ("sentence", highlight.SentenceFragmenter()), ("whole", highlight.WholeFragmenter()),
+                             ("pinpoint", highlight.PinpointFragmenter(surround=rng.choice([20, 3])))])
+    fm = rng.choice([highlight.NullFormatter(), highlight.HtmlFormatter(tagname="em", classname="hit", maxclasses=2),
+                     highlight.UppercaseFormatter()])
+    fm.between = SENT
+    captured = []
+    orig = fm.format
+
+    def spy(fragments, replace=False):
+        fragments = list(fragments)
+        captured.append(fragments)
+        return orig(fragments, replace)
+    fm.format = spy
+    ctx.count("f.lowlevel")
+    hw = dict(wit, api="highlight.highlight()", fragmenter=frname, formatter=type(fm).__name__,
+              query_tokens=[short(x, 40) for x in qtoks])
+    out = highlight.highlight(text, qset, ana, fr, fm, top=rng.choice([1, 3]),
+                              order=rng.choice([highlight.FIRST, highlight.SCORE, highlight.LONGER, highlight.SHORTER]))
+    for piece in (out.split(SENT) if out else []):
+        if isinstance(fm, highlight.HtmlFormatter):
+            ok = html.unescape(re.sub(r"</?em[^>]*>", "", piece)) in text
+        elif isinstance(fm, highlight.UppercaseFormatter):
+            ok = piece.upper() in text.upper()
+        else:
+            ok = piece in text
+        if not ok:
+            ctx.fail("f.highlight", "excerpt-not-substring:lowlevel/%s" % frname, dict(hw, excerpt=short(piece, 200)))
+            return
+    for fr_ in (captured[0] if captured else []):
+        index = fr_.startchar
+        for m in fr_.matches:
+            if m.startchar is None or m.startchar < index:
+                continue
+            index = m.endchar
+            ctx.count("f.lowlevel_spans")
+            if not span_ok(m.startchar, m.endchar, ranges):
+                if _ngram_after_lowercase(wit["analyzer"]) and _has_length_changing_lower(text):
+                    ctx.fail("e.offsets", "known:ngram-offsets-after-length-changing-lowercase", hw,
+                             "seen through highlight.highlight()")
+                    return
+                ctx.fail("f.highlight", "marked-span-not-a-matched-term:lowlevel/%s" % frname,
+                         dict(hw, span=(m.startchar, m.endchar), marked=short(text[m.startchar:m.endchar], 80),
+                              matched_term_ranges=ranges[:12], output=short(out, 300)))
+                return
+
+
+def span_ok(a, b, ranges):
+    """A marked span [a,b) must start at the start and end at the end of source ranges of matched terms and be
+    covered by such ranges without holes."""
+    inside = sorted((sc, ec) for sc, ec in ranges if a <= sc and ec <= b)
+    if not inside or inside[0][0] != a or max(ec for _, ec in inside) != b:
+        return False
+    reach = a
+    for sc, ec in inside:
+        if sc > reach:
+            return False
+        reach = max(reach, ec)
+    return reach >= b
+
+
+def check_strict_phrase(ctx, rng, s, wit, text, itoks, words, did):
+    """Hit.highlights(strict_phrase=True) for a phrase query made of the document's own consecutive tokens: what is
+    marked must still be source text of the phrase's words."""
+    from whoosh import highlight, query
+    q = query.Phrase("f", list(words))
+    r = s.search(q, limit=None)
+    hit = None
+    for h in r:
+        if h["id"] == did:
+            hit = h
+    if hit is None:
+        return
+    fm = highlight.NullFormatter()
+    fm.between = SENT
+    captured = []
+    orig = fm.format
+
+    def spy(fragments, replace=False):
+        fragments = list(fragments)
+        captured.append(fragments)
+        return orig(fragments, replace)
+    fm.format = spy
+    r.fragmenter = rng.choice([highlight.WholeFragmenter, highlight.ContextFragmenter])()
+    r.formatter = fm
+    ctx.count("f.strict_phrase")
+    hw = dict(wit, phrase=[short(x, 40) for x in words], strict_phrase=True)
+    out = hit.highlights("f", top=3, strict_phrase=True)
+    for piece in (out.split(SENT) if out else []):
+        if piece not in text:
+            ctx.fail("f.highlight", "excerpt-not-substring:strict-phrase", dict(hw, excerpt=short(piece, 200)))
+            return
+    qset = set(words)
+    ranges = sorted(set((t.sc, t.ec) for t in itoks if t.text in qset and t.sc is not None))
+    nmarked = 0
+    for fr in (captured[0] if captured else []):
+        index = fr.startchar
+        for m in fr.matches:
+            if m.startchar is None or m.startchar < index:
+                continue
+            index = m.endchar
+            nmarked += 1
+            ctx.count("f.strict_phrase_spans")
+            if not span_ok(m.startchar, m.endchar, ranges):
+                if _ngram_after_lowercase(wit["analyzer"]) and _has_length_changing_lower(text):
+                    ctx.fail("e.offsets", "known:ngram-offsets-after-length-changing-lowercase", hw,
+                             "seen through a strict-phrase highlight")
+                    return
+                ctx.fail("f.highlight", "strict-phrase-marks-non-phrase-word",
+                         dict(hw, span=(m.startchar, m.endchar), marked=short(text[m.startchar:m.endchar], 80),
+                              phrase_word_ranges=ranges[:12], output=short(out, 300)))
+                return
 
 
 # ----------------------------------------------------------------------
